@@ -123,12 +123,21 @@ class H5Group:
         :param compression: whether to compress the data (default: False)
         """
         shape = np.shape(data)
-        if self.has_data(name):
+        exists = self.has_data(name)
+        if exists:
             dset = self.get_dataset(name)
-            dset.shape = shape
+            target = dset.dataset.dtype
         else:
             if dtype is None:
                 dtype = DataType.get_dtype(data[0])
+            target = dtype
+        if target != DataType.String and np.dtype(target).kind in "biuf":
+            # refuse values that do not fit the numeric type before the
+            # dataset is resized or created
+            data = np.asarray(data, dtype=target)
+        if exists:
+            dset.shape = shape
+        else:
             dset = self.create_dataset(name, shape, dtype, compression)
 
         dset.write_data(data)
